@@ -134,7 +134,7 @@ class Program:
                         self.aliases[crate + "::" + r["path"]] = r
                     elif k == "impl":
                         r["crate"] = crate; self.impls.append(r)
-        if "jiff" not in self.crates:
+        if "jiff" not in self.crates and config != "controls":
             raise BuildFailed("crate jiff was not analysed")
 
     def fn(self, key):
@@ -151,6 +151,19 @@ class Program:
 
 class AnchorMissing(Exception):
     pass
+
+def load_controls():
+    """facts of the committed control crate (fixtures/controls.jsonl, regenerated by tools/gen_controls.sh): tiny positive and
+    negative examples for rules whose expected number of instances on the repository is zero"""
+    import tempfile
+    src = os.path.join(VERIF, "fixtures", "controls.jsonl")
+    d = tempfile.mkdtemp(prefix="jv-controls-")
+    try:
+        shutil.copy(src, os.path.join(d, "controls.lib.jsonl"))
+        return Program("controls", d, 0)
+    finally:
+        shutil.rmtree(d, ignore_errors=True)
+
 
 _cache = {}
 def load(config="Q"):
